@@ -33,8 +33,19 @@ def program(comps, indirect):
         args = ", ".join(f'{p}="{WANT[p]}"' for p in MASKS[mi])
         dec = f'@loop("{loop}")\n' if loop != "L1" else ""
         pr = f"  priority {prio}\n" if prio is not None else ""
-        if not indirect:
+        if indirect == "or-group":
+            # odd competitors reach their action through an or-group of matches (forked heads that merge)
+            grp = f"E({args}) or Zzz{i}()" if i % 2 == 0 else f"E({args})"
+            out.append(f"{dec}flow f{i}\n{pr}  match {grp}\n  start Act{act}Action()\n  match Done()\n")
+        elif indirect == "or-group-2":
+            grp = f"E({args}) or Zzz{i}()" if i % 2 == 1 else f"E({args})"
+            out.append(f"{dec}flow f{i}\n{pr}  match {grp}\n  start Act{act}Action()\n  match Done()\n")
+        elif not indirect:
             out.append(f"{dec}flow f{i}\n{pr}  match E({args})\n  start Act{act}Action()\n  match Done()\n")
+        elif indirect == "prio-in-wrapper":
+            # the declared priority sits in the flow whose deciding match is on an *internal* event
+            out.append(f"flow g{i}\n  match E({args})\n")
+            out.append(f"{dec}flow f{i}\n{pr}  await g{i}\n  start Act{act}Action()\n  match Done()\n")
         else:
             out.append(f"flow g{i}\n{pr}  match E({args})\n")
             out.append(f"{dec}flow f{i}\n  await g{i}\n  start Act{act}Action()\n  match Done()\n")
@@ -42,13 +53,18 @@ def program(comps, indirect):
     return "\n".join(out) + "\n" + main
 
 
-def score(comp):
+def score(comp, indirect=False):
+    """score chain as a tuple (compared left to right).  Wrappers are structurally identical, so the
+    score of their match on the internal Finished event is one common constant c > 0; only the
+    declared priority of the wrapper scales it."""
     mi, act, loop, prio = comp
     s = 1.0
     s *= 0.9 ** (N_EVENT_PARAMS - len(MASKS[mi]))
+    if indirect == "prio-in-wrapper":
+        return (s, prio or 1.0)
     if prio:
         s *= prio
-    return s
+    return (s,)
 
 
 def fits(comp, ev):
@@ -69,6 +85,9 @@ def where(state, fs):
         return "finished"
     cfg = state.flow_configs[fs.flow_id]
     heads = [h for h in fs.heads.values() if h.status != FlowHeadStatus.INACTIVE]
+    if len(heads) == 2 and all(sm.is_match_op_element(cfg.elements[h.position]) for h in heads) and \
+            {cfg.elements[h.position].spec.name for h in heads} - {"E"} and "E" in {cfg.elements[h.position].spec.name for h in heads}:
+        return "E"  # or-group: one head per alternative, still waiting
     if len(heads) != 1:
         return f"heads={len(heads)}"
     el = cfg.elements[heads[0].position]
@@ -125,8 +144,8 @@ def explore(task):
                 grp = [i for i in fit if comps[i][2] == loop]
                 if not grp:
                     continue
-                best = max(score(comps[i]) for i in grp)
-                argmax = [i for i in grp if score(comps[i]) == best]
+                best = max(score(comps[i], indirect) for i in grp)
+                argmax = [i for i in grp if score(comps[i], indirect) == best]
                 ws = {i: where(st, flow_of(st, i)) if flow_of(st, i) else "gone" for i in grp}
                 winners = [i for i in grp if ws[i] == "done"]
                 losers = [i for i in grp if ws[i] == "stopped"]
@@ -143,7 +162,7 @@ def explore(task):
                 if act not in {comps[i][1] for i in argmax}:
                     raise Violation("less-specific-flow-won",
                                     f"loop {loop}: action {act} won but most specific flows are {argmax} "
-                                    f"(scores { {i: round(score(comps[i]), 4) for i in grp} })", detail)
+                                    f"(scores { {i: score(comps[i], indirect) for i in grp} })", detail)
                 missing = [i for i in grp if comps[i][1] == act and i not in winners]
                 if missing:
                     raise Violation("identical-action-flow-failed",
@@ -185,6 +204,16 @@ def tasks(tier):
     red = [c for c in space if c[3] is None]
     for pair in itertools.product(red, repeat=2):
         out.append((pair, True, depth))
+    # one competitor matches through an or-group (fork at start, merge on the event)
+    for pair in itertools.product(space, repeat=2):
+        out.append((pair, "or-group", depth))
+        out.append((pair, "or-group-2", 2))
+    # priority declared in the awaiting wrapper (its deciding match is on an internal event)
+    redp = [c for c in space if c[2] == "L1"]
+    for pair in itertools.product(redp, repeat=2):
+        if pair[0][3] is None and pair[1][3] is None:
+            continue
+        out.append((pair, "prio-in-wrapper", 2))
     if tier == "quick":
         cur = [c for c in space if c[3] is None and c[2] == "L1"]
         for tr in itertools.product(cur, repeat=3):
